@@ -27,8 +27,8 @@ impl Family for C03Family {
 
     fn total(&self, tier: Tier) -> u64 {
         match tier {
-            Tier::Quick => 6_000,
-            Tier::Thorough => 500_000,
+            Tier::Quick => 40_000,
+            Tier::Thorough => 3_000_000,
         }
     }
 
